@@ -24,25 +24,25 @@ which = sys.argv[1:]
 TXT = {
  "C16": dict(
    level="fault_enumeration",
-   text="Seeded deterministic simulation of the real write path (WriteTool.execute, atomic_write_octave, CLI write/normalize -o/seal -o) over a real tmpfs sandbox with every file operation interposed. For each swept scenario EVERY operation boundary the code reaches is visited as kill, power-loss and async-exception point and with every errno its class admits (one-shot and sticky), then pairs inside the recovery window, then seeded random multi-fault and two-writer runs. The kill model is cross-validated against real SIGKILLed child processes and the seam against seam-less executions on every run. It is enumeration over the operations the current code performs per scenario plus sampling over scenarios; not a proof.",
+   text="Seeded deterministic simulation of the real write path (WriteTool.execute, atomic_write_octave, CLI write/normalize -o/seal -o) over a real tmpfs sandbox with every file operation interposed. Scenarios include unusual targets (directory, hard-linked, read-only, set-id modes, NAME_MAX names), debris of crashed writers, CRLF/BOM/undecodable files and content from a few bytes to 146 KB. For each swept scenario EVERY operation boundary the code reaches is visited as kill, power-loss and async-exception point and with every errno its class admits (one-shot and sticky), then pairs inside the recovery window, then seeded random multi-fault and two-writer runs. The kill model is cross-validated against real SIGKILLed child processes and the seam against seam-less executions on every run. It is enumeration over the operations the current code performs per scenario plus sampling over scenarios; not a proof.",
    note="Trusted: the interposer sees every file operation (cross-checked by a sys.addaudithook observer on every run), the in-process kill model (self-checked: unwinding changes nothing on disk), and the power-loss durability MODEL (ordered metadata, data durable up to last fsync). MCP server dispatch/transport are not exercised.",
    tech="deterministic simulation: interposed file-operation seam + planned single/pair fault sweep + seeded random fault/schedule search, oracle on disk state from outside",
    ref="3"),
  "C17": dict(
    level="exploration",
-   text="Seeded search over (a) sequential histories of write calls and external modifications checked step by step against a register model, (b) interleavings of 2-3 writer processes (real threads parked at every interposed file operation, one baton, schedule from the seed) with the CAS invariant evaluated by the simulator at the instant each os.replace is executed, (c) concurrent/duplicated/reordered tool calls inside one process under a deterministic asyncio loop. In addition two sub-spaces the quantifier names are swept completely: every history over {content, changes, normalize, corrections_only, external modification} x base_hash {none, current, stale, future} up to length 3 (quick) / 5 (thorough), and every interleaving of 36 writer pairs at read/lock/replace granularity (depth-first over the schedule tape). Everything else is seeded sampling.",
+   text="Seeded search over (a) sequential histories of write calls and external modifications checked step by step against a register model, (b) interleavings of 2-3 writer processes (real threads parked at every interposed file operation, one baton, schedule from the seed) with the CAS invariant evaluated by the simulator at the instant each os.replace is executed, (c) concurrent/duplicated/reordered tool calls inside one process under a deterministic asyncio loop. In addition two sub-spaces the quantifier names are swept completely: every history over {content, changes, normalize, corrections_only, external modification} x base_hash {none, current, stale, future} up to length 5 in the thorough tier (as far as its time cap reaches; the evidence file says whether the sweep was complete), and over an extended 22-symbol alphabet (plus undecodable content, the digest of the empty text, the current text re-sent, the previous call re-sent) up to length 3 (quick) / 4 (thorough), and every interleaving of 45 writer pairs (9 writer kinds incl. a non-cooperating in-place editor) at read/lock/replace granularity (depth-first over the schedule tape). Everything else is seeded sampling.",
    note="Trusted: the scheduler is the only source of interleaving (one thread runs at a time), the interposer sees every file operation (audit-hook cross-check), flock is modelled as a blocking point. External programs that do not use the tool are outside the quantifier except as atomic steps of sequential histories.",
    tech="deterministic simulation: baton-scheduled writer processes at file-operation granularity + reference register model + seeded schedule search",
    ref="4"),
  "C19": dict(
    level="exploration",
-   text="Generated file-system layouts (symlinks of every kind incl. dangling and chains, secrets outside the sandbox, HOME cache) and generated path strings / schema names / frozen digests / source URIs are fed to the real tools while the storage seam and an independent audit hook record every path actually opened, created, renamed or removed; an independent lexical classifier decides which paths must be refused. Complete enumerations inside the sampling: every path of directory depth <= 1 (quick) / <= 2 (thorough) over 20 directory segments x 63 final segments x {absolute, relative} x 12 call kinds; every schema name over a 13-character alphabet up to length 4 / 5; all ordered pairs of schema look-ups (name x cwd x entry) and of frozen references (reference x entry x cache tampering in between), each sequence served by one forked process since a resolver may keep state; call(P)-change-layout-call(P) sequences. Seeded sampling elsewhere.",
+   text="Generated file-system layouts (symlinks of every kind incl. dangling, chains and loops, secrets outside the sandbox, HOME cache) and generated path strings / schema names / frozen digests / source URIs are fed to the real tools while the storage seam and an independent audit hook record every path actually opened, created, renamed or removed; an independent lexical classifier decides which paths must be refused. Complete enumerations inside the sampling: every path of directory depth <= 1 (quick) / <= 2 (thorough) over the directory and final segments listed in sim/c19.py (36 x 70 at the time of writing: plain, '..', links of every kind incl. loops, names that Unicode folding or a string sanitiser changes, '~'/'$VAR' forms) x {absolute, relative} x 12 call kinds; every schema name over a 13-character alphabet up to length 4 / 5; all ordered pairs of schema look-ups (name x cwd x entry) and of frozen references (reference x entry x cache tampering in between), each sequence served by one forked process since a resolver may keep state; call(P)-change-layout-call(P) sequences. Seeded sampling elsewhere.",
    note="Trusted: seam + audit hook together see every file access of the calling thread; the classifier (lexical walk with lstat) is independent of the code's validators. Races where a component is swapped during the call are out of scope.",
    tech="storage seam as recorder over generated file-system configurations (no schedule or fault dimension: the seam is used as an observer)",
    ref="6"),
  "C06": dict(
    level="exploration",
-   text="The same generated calls are executed in a pristine forked interpreter (golden) and under seeded variations of everything the property quantifies over: fresh interpreters with different PYTHONHASHSEED / cwd / locale / TZ, long-lived workers that first served a shuffled history, concurrently scheduled asyncio tasks under a deterministic loop, caller threads pre-empted at line granularity by a seeded scheduler, different (simulated) clock values, shuffled directory enumeration order. Oracle: byte equality of the serialised result with timestamps masked.",
+   text="The same generated calls are executed in a pristine forked interpreter (golden) and under seeded variations of everything the property quantifies over: fresh interpreters with different PYTHONHASHSEED / cwd / locale / TZ, long-lived workers that first served a shuffled history (incl. the same bytes and near-twins of them through other entry points, with the garbage collector disabled / forced), concurrently scheduled asyncio tasks under a deterministic loop, caller threads pre-empted at line granularity by a seeded scheduler, different (simulated) clock values, shuffled directory enumeration order. Oracle: byte equality of the serialised result with timestamps masked.",
    note="Trusted: masking touches only routing_log timestamps and the sandbox root; schema texts are byte-identical across configurations. Locales limited to those installed (C, C.UTF-8, POSIX).",
    tech="deterministic simulation of process configuration, call history, task and thread schedules with a golden-run differential oracle",
    ref="5"),
